@@ -21,7 +21,7 @@ TIES = {
     "C01": {"props": ["PysamlModel.Props.PyTieC01"], "audit": ["PysamlModel/Audit/PyTieC01.lean"],
             "functions": ["correctly_signed_response"]},
     "C06": {"props": ["PysamlModel.Props.PyTieC06"], "audit": ["PysamlModel/Audit/PyTieC06.lean"],
-            "functions": ["loads"]},
+            "functions": ["loads", "scan"]},
     "C04": {"props": ["PysamlModel.Props.PyTieC04", "PysamlModel.Props.PyTieCond"],
             "audit": ["PysamlModel/Audit/PyTieC04.lean", "PysamlModel/Audit/PyTieCond.lean"],
             "functions": ["for_me", "_verify", "condition_ok"]},
@@ -69,6 +69,18 @@ def cases(pid, rng, tier):
             for req in (False, True):
                 for must in (False, True):
                     out.append({"fn": "correctly_signed_response", "sig": sig, "req": req, "must": must})
+    if "scan" in TIES[pid]["functions"]:
+        irts = [None, "req-1", "req-2", ""]
+        confs = [None] + [{"irt": i} for i in irts]
+        subjects = [None, [], [confs[0]], [confs[2]], [confs[3]], [confs[0], confs[2]], [confs[2], confs[3]], [confs[1]], [confs[4]]]
+        for irp in irts:
+            for a in subjects:
+                out.append({"fn": "scan", "as": [a], "irp": irp})
+                for b in subjects:
+                    out.append({"fn": "scan", "as": [a, b], "irp": irp})
+        for _ in range(n):
+            out.append({"fn": "scan", "irp": rng.choice(irts),
+                        "as": [rng.choice([None] + [[rng.choice(confs) for _ in range(rng.randint(0, 3))]] * 4) for _ in range(rng.randint(0, 4))]})
     if "loads" in TIES[pid]["functions"]:
         ids = [None, "req-1", "req-2", "req-unknown", ""]
         tables = [[], [["req-1", "/came/1"]], [["req-1", "/came/1"], ["req-2", "/came/2"]], [["req-2", "/x"], ["req-1", "/y"], ["req-1", "/z"]]]
@@ -179,6 +191,19 @@ def run_real(case):
             sc._check_signature = _check_signature
             v = sc.correctly_signed_response(str(resp), must=case["must"], require_response_signature=case["req"])
             return {"r": "value", "v": "<object>" if v is not None else None}
+        elif fn == "scan":
+            from saml2 import saml, samlp
+            from saml2.response import AuthnResponse
+
+            def conf(c):
+                data = None if c is None else saml.SubjectConfirmationData(in_response_to=c["irt"])
+                return saml.SubjectConfirmation(subject_confirmation_data=data)
+
+            ar = AuthnResponse.__new__(AuthnResponse)   # the method reads self.response.assertion, nothing else
+            ar.response = samlp.Response(assertion=[
+                saml.Assertion(subject=None if a is None else saml.Subject(subject_confirmation=[conf(c) for c in a]))
+                for a in case["as"]])
+            v = ar.check_subject_confirmation_in_response_to(case["irp"])
         elif fn == "loads":
             from saml2.response import AuthnResponse
             from saml2.sigver import SignatureError
